@@ -50,8 +50,16 @@ fn templates() -> Vec<Tpl> {
         t("PRINT \"GOTO 10\":REM GOTO 10", 0),
         t("A(10)=20:B=100-5", 0),
         t("IF A=10 THEN PRINT 10 ELSE PRINT 20", 0),
+        // literals of every spelling in front of the reference (columns are counted per listed token);
+        // the last LATE templates are used for the first line only in programs of three lines
+        t("IF X=&17 THEN {0} ELSE {1}", 2),
+        t("Y=&7:Z=&HFF:GOSUB {0}", 1),
+        t("Y=1E5+2.5#+3!+4%+.5:GOTO {0}", 1),
+        t("IF A<=B OR A>=B OR A<>B THEN {0}", 1),
     ]
 }
+
+const LATE: usize = 4;
 
 fn fill(t: &Tpl, r0: u32, r1: u32) -> String {
     t.text.replace("{0}", &r0.to_string()).replace("{1}", &r1.to_string())
@@ -170,15 +178,50 @@ fn judge(case: &Case, cmd: &(String, u32, u32, u32), ctx: &mut Ctx) {
         s.take();
         s.enter(&cmd.0);
         let ev = s.take();
-        (typed, s.listing_text(), ev)
+        let after = s.listing_text();
+        // what runs afterwards is the renumbered program: the same commands in a fresh
+        // interpreter fed the new listing must give the same transcript
+        let first = after.first().and_then(|l| l.split(' ').next()).unwrap_or("0").to_string();
+        let cmds = [format!("GOTO {}", first), "TRON".to_string(), format!("RUN {}", first), "TROFF".to_string()];
+        // (the argument triples with a comma only vary the numbering: executing after `RENUM` and `RENUM n` is enough)
+        if cmd.0.contains(',') || before.len() > 2 {
+            return (typed, after, ev, String::new(), String::new());
+        }
+        // (most of these programs jump in circles: 200 instructions per command are enough to tell)
+        s.quantum = 50;
+        s.max_calls = 4;
+        let mut here = String::new();
+        for c in &cmds {
+            s.enter(c);
+            here.push_str(&crate::driver::render(&s.take()));
+            here.push('|');
+        }
+        let mut f = Session::with(50, 4);
+        for l in &after {
+            f.enter(l);
+        }
+        f.take();
+        let mut fresh = String::new();
+        for c in &cmds {
+            f.enter(c);
+            fresh.push_str(&crate::driver::render(&f.take()));
+            fresh.push('|');
+        }
+        (typed, after, ev, here, fresh)
     });
     let site = ts.iter().enumerate().filter(|(i, _)| case.tpls.contains(i)).map(|(_, t)| t.text.split(' ').next().unwrap_or("")).collect::<Vec<_>>();
     let site = site.iter().find(|w| !["PRINT", "A=10:GOSUB", "FOR", "DATA", "A(10)=20:B=100-5"].contains(w)).cloned().unwrap_or("decoy");
     match r {
         Err(p) => ctx.violation(&format!("RENUM/{}", crate::engine::panic_class(&p)), format!("{} : {}", desc, p)),
-        Ok((typed, after, ev)) => {
+        Ok((typed, after, ev, here, fresh)) => {
             let reported = ev.iter().any(|e| matches!(e, Ev::Err(_)));
             ctx.nontrivial(hash64(&(&expect, site)));
+            if here != fresh {
+                ctx.violation(
+                    "RENUM/what-runs-is-not-the-renumbered-listing",
+                    format!("{} : after RENUM, GOTO / TRON / RUN of the first line gave {:?}; a fresh interpreter holding the new listing {:?}", desc, here, fresh),
+                );
+            }
             match &expect {
                 None => {
                     if after != typed {
@@ -225,13 +268,14 @@ impl Sweep for Programs {
         let nums = sets[shard / nt].clone();
         let first = shard % nt;
         let args = arg_triples(self.all_args);
-        let total = nt.pow(self.k as u32 - 1);
+        let nr = if self.k >= 3 { nt - LATE } else { nt };
+        let total = nr.pow(self.k as u32 - 1);
         for idx in 0..total {
             let mut tpls = vec![first];
             let mut x = idx;
             for _ in 1..self.k {
-                tpls.push(x % nt);
-                x /= nt;
+                tpls.push(x % nr);
+                x /= nr;
             }
             // RESTORE needs DATA to be link-clean? no: RESTORE n only needs line n
             let case = Case { nums: nums.clone(), tpls };
